@@ -170,6 +170,52 @@ let string_of_item (it : M.item) : string =
 let nlist_of_string s = if s = "-" then [] else List.map n_of_string (split ',' s)
 let zlist_of_string s = if s = "-" then [] else List.map z_of_string (split ',' s)
 
+(* ---- requests ------------------------------------------------------------------- *)
+(* rkind: kindspec | G | - (dummy) *)
+let rkind_of_string s : M.rkind =
+  if s = "G" then M.RValGet else if s = "-" then M.RK (M.KFixed []) else M.RK (kind_of_string s)
+(* request: op|cls.id|body|respname|respkind   body: F=<fields> | S=<item;item> | G=<keys> *)
+let request_of_string (s : string) : M.rop * M.request =
+  match split '|' s with
+  | [op; c; body; rn; rk] ->
+    let o = (match op with "poll" -> M.RPoll | "set" -> M.RSet | "mga" -> M.RSetMga | "fire" -> M.RFire
+                          | _ -> failwith "rop") in
+    let b = (match body.[0] with
+        | 'F' -> M.BFields (fields_of_string (String.sub body 2 (String.length body - 2)))
+        | 'S' -> M.BValSet (List.map item_of_string (split ';' (String.sub body 2 (String.length body - 2))))
+        | 'G' -> M.BValGetPoll (zlist_of_string (String.sub body 2 (String.length body - 2)))
+        | _ -> failwith "body") in
+    (o, { M.rq_cid = cid_of_string c; rq_body = b; rq_resp = (cstring rn, rkind_of_string rk) })
+  | _ -> failwith "request"
+(* rx event: <hex or N or E(mpty bytes)>@dt *)
+let rxev_of_string s =
+  match split '@' s with
+  | [d; dt] -> ((if d = "N" then None else if d = "E" then Some [] else Some (bytes_of_hex d)), n_of_string dt)
+  | _ -> failwith "rxev"
+let rxevs_of_string s = if s = "-" then [] else List.map rxev_of_string (split ',' s)
+(* script: pending/attempt/attempt...   attempt = ok:evs *)
+let script_of_string (idle : string) (s : string) : M.script =
+  match split '/' s with
+  | pend :: atts ->
+    { M.pending = rxevs_of_string pend;
+      future = List.map (fun a -> match split ':' a with
+          | [ok; evs] -> (bool_of_string01 ok, rxevs_of_string evs) | _ -> failwith "attempt") atts;
+      idle_dt = n_of_string idle }
+  | _ -> failwith "script"
+let string_of_decoded = function
+  | M.DFields fs -> string_of_fields fs
+  | M.DValGet (h, its) -> string_of_fields h ^ "+" ^ String.concat "+" (List.map string_of_item its)
+let string_of_rframe (f : M.rframe) =
+  Printf.sprintf "%s:%s:%s" (ostring f.M.rf_name) (hex_of_bytes f.M.rf_payload) (string_of_decoded f.M.rf_dec)
+let string_of_outcome = function
+  | M.Return None -> "ret=None" | M.Return (Some f) -> "ret=" ^ string_of_rframe f
+  | M.Raised e -> "exn=" ^ exn_name e | M.OutOfFuel -> "fuel"
+let string_of_event = function
+  | M.Tx (d, ok) -> "T" ^ hex_of_bytes d ^ (if ok then "+" else "!")
+  | M.Rx (None, dt) -> "RN@" ^ string_of_n dt
+  | M.Rx (Some d, dt) -> "R" ^ hex_of_bytes d ^ "@" ^ string_of_n dt
+  | M.Flush -> "F" | M.Recover -> "V"
+
 (* ---- commands ------------------------------------------------------------------- *)
 let handle (line : string) : string =
   match List.filter (fun t -> t <> "") (split ' ' line) with
@@ -230,6 +276,25 @@ let handle (line : string) : string =
   | ["speczr"; name; h] ->
     (match M.oracle_zero_reserved (cstring name) (bytes_of_hex h) with
      | Some b -> hex_of_bytes b | None -> "undefined")
+  | "reqs" :: sk :: retries :: delay :: idle :: script :: reqs ->
+    let w = { M.wsrv = M.new_srv (nat_of_int (int_of_string retries)) (n_of_string delay);
+              wenv = script_of_string idle script; wnow = M.N0; wtrace = []; wtie = false } in
+    let rs = M.run_requests (nlist_of_string sk) (nat_of_int 200000) (List.map request_of_string reqs) w in
+    String.concat " ;; " (List.map (fun (((o, tr), dt), tie) ->
+        Printf.sprintf "%s dt=%s%s trace=%s" (string_of_outcome o) (string_of_n dt) (if tie then " TIE" else "")
+          (String.concat "," (List.map string_of_event tr))) rs)
+  | ["ttytx"; written; h] ->
+    let (d, ok) = M.tty_transmit (z_of_string written) (bytes_of_hex h) in
+    Printf.sprintf "%s %s" (hex_of_bytes d) (if ok then "True" else "False")
+  | ["ttyrecover"; op; baud] ->
+    (match M.tty_recover { M.p_open = bool_of_string01 op; p_baud = z_of_string baud; p_baud_log = [] } with
+     | M.Ok p -> Printf.sprintf "open=%s baud=%s log=%s" (if p.M.p_open then "1" else "0") (string_of_z p.M.p_baud)
+                   (String.concat "," (List.map string_of_z p.M.p_baud_log))
+     | M.Raise e -> "!" ^ exn_name e)
+  | ["gpsdtx"; dev; h; reply] ->
+    let r = if reply = "ERR" then M.GSockError else M.GReply (bytes_of_hex reply) in
+    let (cmd, ok) = M.gpsd_transmit (bytes_of_hex dev) (bytes_of_hex h) r in
+    Printf.sprintf "%s %s" (hex_of_bytes cmd) (show_res (fun b -> if b then "True" else "False") ok)
   | ["enc"; fs] ->
     show_res hex_of_bytes (M.encode (fields_of_string fs))
   | ["cpack"; it] ->
